@@ -122,6 +122,35 @@ def _case_labels_direct(node):
     return out
 
 
+def _indexed_site(u, f, call):
+    """A scanner call made in a loop whose bounds and destination are picked from small local arrays by one index local:
+    [(index variable id, index value, [array declarations])] for every value of the index, or None."""
+    idx = set()
+    arrs = {}
+    for a in call_args(call):
+        for y in walk(a):
+            if y.get('kind') == 'ArraySubscriptExpr':
+                b, i = peel(kids(y)[0]), peel(kids(y)[1])
+                bd = u.by_id.get((b.get('referencedDecl') or {}).get('id')) if b.get('kind') == 'DeclRefExpr' else None
+                if bd is None or bd.get('kind') != 'VarDecl' or i.get('kind') != 'DeclRefExpr':
+                    return None
+                m = re.match(r'^(?:const )?(?:int|long|short|unsigned int)\s*\[(\d+)\]$', (dtype(bd) or qtype(bd) or '').strip())
+                if not m or bd.get('storageClass') == 'static':
+                    return None
+                arrs[bd['id']] = (bd, int(m.group(1)))
+                idx.add((i.get('referencedDecl') or {}).get('id'))
+    if len(idx) != 1 or not arrs:
+        return None
+    n = min(n_ for (_d, n_) in arrs.values())
+    if any(n_ != n for (_d, n_) in arrs.values()) or not (1 <= n <= 8):
+        return None
+    # the call sits in a loop
+    if not any(a.get('kind') in ('WhileStmt', 'ForStmt', 'DoStmt') for a in ancestors(call)):
+        return None
+    ivar = list(idx)[0]
+    return [(ivar, i, [d for (d, _n) in arrs.values()]) for i in range(n)]
+
+
 def run(ctx):
     G = ctx.G
     kp = G.one('cctz::detail::parse')
@@ -134,7 +163,12 @@ def run(ctx):
         uu, ff = G.defs[fk]
         for x in walk(ff):
             if x.get('kind') == 'CallExpr' and callee(x) and callee(x)[0] == 'fn' and callee(x)[1].get('name') == 'ParseInt':
-                sites.append((fk, uu, ff, x, where))
+                ex_ = _indexed_site(uu, ff, x) if where == 'offset' else None
+                if ex_:
+                    for (ivar, i_, decls) in ex_:
+                        sites.append((fk, uu, ff, x, where, ivar, i_, decls))
+                else:
+                    sites.append((fk, uu, ff, x, where, None, None, ()))
     n_data = 0
     n_off = 0
     # the input cursor of parse(): the local initialised from the characters of the input string (second parameter)
@@ -147,7 +181,7 @@ def run(ctx):
                 data_keys.add('%s#%s' % (d_.get('name'), d_['id']))
     if len(data_keys) != 1:
         raise AnalysisBroken('C09-range: the input cursor of parse() was not found (%d candidates)' % len(data_keys))
-    for (fk, uu, ff, x, where) in sites:
+    for (fk, uu, ff, x, where, ivar, ival, idecls) in sites:
         args = call_args(x)
         src = peel(args[0])
         sk = Keys(uu).key(args[0])
@@ -172,7 +206,14 @@ def run(ctx):
                 d = uu.by_id.get((y.get('referencedDecl') or {}).get('id'))
                 if d is not None and (dtype(d) or qtype(d)).rstrip().endswith('*'):
                     st.mem[(d['id'],)] = Ptr('NN', ('chars', 'input'), Int(0, 10 ** 9))
-        res = ai.eval(x, st, uu)
+        pre = [st]
+        if ivar is not None:
+            # one call in a loop over a table of maxima: judged once per value of the index
+            for d_ in idecls:
+                pre = [s2 for s_ in pre for s2 in ai.decl(d_, s_, uu)]
+            for s_ in pre:
+                s_.mem[(ivar,)] = I(ival)
+        res = [r_ for s_ in pre for r_ in ai.eval(x, s_, uu)]
         got = None
         for (v, s) in res:
             if isinstance(v, Ptr) and v.null == 'N':
@@ -188,6 +229,8 @@ def run(ctx):
         for lab in labs:
             if (lab, dsuf) in DOC:
                 key = (lab, dsuf)
+        if ivar is not None:
+            dname = '%s[%d]' % (dname.split('[')[0], ival)
         inst = '%%%s -> %s' % ('/'.join(labs), dname) if where == 'parse' else 'offset %s' % dname
         if key is None:
             ctx.bad('C09-range', inst + ' is a documented numeric field', x,
@@ -233,7 +276,10 @@ def run(ctx):
                       'the cursor returned by the offset parser is moved to a position that is not the end of a complete '
                       'two-digit field (for example past a separator that is not followed by digits): malformed offsets '
                       'such as "+01:" are accepted', construct='range:offset-cursor:%s' % rk.split('#')[0])
-    if n_asg < 3:
+    in_loop = any(x.get('kind') == 'BinaryOperator' and x.get('opcode') == '=' and
+                  (peel(kids(x)[0]).get('referencedDecl') or {}).get('id') in retvars and
+                  any(a.get('kind') in ('WhileStmt', 'ForStmt', 'DoStmt') for a in ancestors(x)) for x in walk(fo_))
+    if n_asg < 3 and not (n_asg >= 1 and in_loop):
         ctx.bad('C09-range', 'offset parser result assignments', fo_, 'expected three advancing assignments, found %d' % n_asg,
                 construct='range:offset-cursor:count')
 
@@ -457,8 +503,11 @@ def run(ctx):
     ctx.minimum('C09-ovf', 6)
 
     # ---- C09-nul
-    for (k2, u2, f2, call) in nul.strchr_sites(ctx, lambda k2, u2, f2: u2.name == 'time_zone_format.cc'):
+    sites_ = nul.strchr_sites(ctx, lambda k2, u2, f2: u2.name == 'time_zone_format.cc')
+    for (k2, u2, f2, call) in sites_:
         nul.check_site(ctx, 'C09-nul', k2, u2, f2, call)
+    if not sites_:
+        ctx.ok('C09-nul', 'no strchr/memchr lookup in time_zone_format.cc', f, 'nothing to exclude: no character-set lookup is made')
     ctx.minimum('C09-nul', 1)    # the lookups may be folded into one helper
 
 
